@@ -77,7 +77,8 @@ pub fn interp1d_linear_unchecked(
         }
 
         // out of bounds, optionally extrapolate
-        if idx == 0 || idx > n {
+        let beyond_right = tgt[i] > x[n - 1];
+        if idx == 0 || beyond_right {
             match extrapolate {
                 ExtrapolationMode::Panic => panic!(
                     "Target out of bounds, need to extrapolate, but extrapolation mode is panic!"
@@ -85,7 +86,7 @@ pub fn interp1d_linear_unchecked(
                 ExtrapolationMode::Fill(left, right) => {
                     if idx == 0 {
                         interp.push(left);
-                    } else if idx > n {
+                    } else if beyond_right {
                         interp.push(right);
                     }
                 }
@@ -97,10 +98,10 @@ pub fn interp1d_linear_unchecked(
                         interp.push(-slope * (x[0] - tgt[i]) + y[0]);
                     }
                     // extrapolate right
-                    else if idx > n {
+                    else if beyond_right {
                         /* print("extrapolating right ", tgt[i]); */
-                        let slope = (y[n] - y[n - 1]) / (x[n] - x[n - 1]);
-                        interp.push(slope * (tgt[i] - x[n]) + y[n]);
+                        let slope = (y[n - 1] - y[n - 2]) / (x[n - 1] - x[n - 2]);
+                        interp.push(slope * (tgt[i] - x[n - 1]) + y[n - 1]);
                     }
                 }
             }
